@@ -190,6 +190,10 @@ func verdict(c *Case, res *Result, cr *Crash) (key, desc string) {
 			return "panic:" + st.Site + ":" + st.Class, fmt.Sprintf("stage %s panicked at %s: %s", st.Name, st.Site, st.Msg)
 		}
 	}
+	// Props/C11.lean parse_height_bounded, on the real parser's output.
+	if res.ASTHeight > maxASTHeight {
+		return "ast-height:exceeds-bound", fmt.Sprintf("parse.Parse returned a tree %d nodes high (the model's bound, theorem parse_height_bounded, is %d): recursive passes over it recurse that deep", res.ASTHeight, maxASTHeight)
+	}
 	// "promptly": at most 10 s of CPU per 64 KiB of input (for the formatter:
 	// of input plus output, its output being legitimately larger than its
 	// input). This only nominates the case; see confirm.go.
@@ -251,6 +255,20 @@ func (h *harness) runBatch(cases []*Case) {
 			for _, st := range o.res.Stages {
 				r.Count("stage:" + st.Name + ":" + st.Status)
 			}
+			if o.res.ASTHeight > 0 {
+				hb := "1-9"
+				switch h := o.res.ASTHeight; {
+				case h >= 100000:
+					hb = "100000+"
+				case h >= 1000:
+					hb = "1000-99999"
+				case h >= 100:
+					hb = "100-999"
+				case h >= 10:
+					hb = "10-99"
+				}
+				r.Count("ast-height:" + hb)
+			}
 			if o.res.NTokens > 0 {
 				sum := sha256.Sum256(c.Files[c.Primary].Src)
 				r.Nontrivial(string(sum[:12]))
@@ -298,6 +316,9 @@ func (h *harness) runBatch(cases []*Case) {
 		}
 	}
 }
+
+// maxASTHeight is the constant of theorem parse_height_bounded (Props/C11.lean).
+const maxASTHeight = 149764
 
 var debugSlow = os.Getenv("C11_DEBUG") != ""
 var onlyFam = os.Getenv("C11_ONLY") // debugging aid: run only generator families with this prefix
